@@ -15,7 +15,8 @@ import string
 from harness import core
 from harness.check import Component
 
-LEAN_TARGETS = ["Aiortc.Props.C09", "Aiortc.Props.C09Examples"]
+LEAN_TARGETS = ["Aiortc.Props.C09", "Aiortc.Props.C09Examples", "Aiortc.Props.C09Text"]
+AUDIT_PROPS = ["C09", "C09Text"]
 DRIVERS = ["Sdp"]
 MANIFEST = {
     "technique": "Lean 4 theorems over an executable three-layer model of sdp.py (lexer, attribute codecs, whole description) "
@@ -27,8 +28,12 @@ MANIFEST = {
             "of SessionDescription.parse (header, first pass, DTLS fix-up, second pass) recovers every field; the whole-description "
             "parser/printer is modelled line by line and tied to the real code by correspondence on real "
             "offers/answers, generated descriptions, the browser SDPs of tests/test_sdp.py and line-level mutations.",
-    "note": "session_roundtrip / generated_fixed_point lift this to whole SessionDescription objects (grouplines, session lines, splitlines); "
-            "whole-text idempotence for ARBITRARY accepted text is proved attribute-wise only and otherwise checked by the oracle (see notes/C09.md).",
+    "note": "session_roundtrip / generated_fixed_point lift this to whole SessionDescription objects (grouplines, session lines, splitlines). "
+            "Props/C09Text.lean proves whole-text idempotence for ARBITRARY accepted text with no hypothesis (text_idempotent : TextIdempotent; "
+            "accepted_text_roundtrip: serialisation of any parser output succeeds, is accepted again, parses to the normal form normS of the first "
+            "result and is a fixed point): parse_output_canonical (everything parse returns satisfies the invariant ParsedSession, proved through the "
+            "m= line, all 20 branches of the first pass, the DTLS fix-up, the second pass and the session lines), canonical_norm_wf (its normal form "
+            "is WFSession), print_norm_invariant, printed_lines_nobreak, canonical_fixed_point; media_idempotent is the media-section instance.",
     "design_ref": "DESIGN.md §2 C09",
 }
 ASSUMPTIONS = [
@@ -39,7 +44,8 @@ ASSUMPTIONS = [
     "msid non-empty, rtcp-mux only with an rtcp port, every ssrc with a known attribute, DTLS role in auto/client/server)",
     "session_roundtrip / generated_fixed_point assume WFSession (origin present; origin/name/time without trailing blank; groups made of tokens; every media WFMedia; "
     "one ice-lite value for all media) and, for the text-level statement, that no printed line contains a line-break character",
-    "whole-text idempotence for arbitrary accepted text (TextIdempotent) is not a Lean theorem: proved for candidate / fmtp / group texts, otherwise evaluated by the oracle on every accepted case",
+    "whole-text idempotence (Props/C09Text.lean: text_idempotent, accepted_text_roundtrip) has NO hypothesis on the text; it is a statement about the model's "
+    "parse/print (tied to the real code by the 'session' correspondence on every generated case) and inherits the modelling limits of int() above",
 ]
 TRUSTED_EXTRA = [
     "Python str.split/splitlines/strip/join/int/str and ipaddress.ip_address are modelled (Model/Sdp/Lex.lean, isIPv4/isIPv6 in Attr.lean) and tied by the 'lex' and 'ip' correspondences only",
@@ -628,7 +634,14 @@ class Session(Component):
                   # duplicate payload types + rtcp-fb (accepted text; see notes, finding dup-pt-feedback)
                   "m=video 9 RTP/AVP 96\r\na=rtpmap:96 VP8/90000\r\na=rtpmap:96 VP9/90000\r\na=rtcp-fb:96 nack\r\n",
                   "v=0\r\nc=IN IP4 example.com\r\nm=audio 9 RTP/AVP 0\r\nc=IN IP4 host.example\r\na=rtcp:9 IN IP6 x.example\r\n",
-                  "m=audio 9 RTP/AVP  \r\n", "m=audio 9 RTP/AVP \t\r\na=setup:active\r\n"]:
+                  "m=audio 9 RTP/AVP  \r\n", "m=audio 9 RTP/AVP \t\r\na=setup:active\r\n",
+                  # the accepted texts of Props/C09Text.lean: every way in which parse output is not "structurally valid"
+                  # (a=mid without value, lone rtcp-mux, ssrc with unknown attribute, 6 channels, empty rtcp-fb parameter,
+                  # empty fmtp, fingerprint without setup) and a media kind containing "/"
+                  "v=0\r\ns=x \r\nb=AS:1\r\nm=audio 9 RTP/AVP 96\r\na=mid\r\na=rtcp-mux\r\na=ssrc:1 foo:bar\r\n"
+                  "a=rtpmap:96 opus/48000/6\r\na=rtcp-fb:96 nack \r\na=fmtp:96 \r\na=fingerprint:sha-256 AA\r\na=foo:bar\r\n",
+                  "v=0\r\nm=a/b 9 X 0\r\na=rtpmap:96 opus/48000\r\n",
+                  "v=0\r\nm=a/b/c 9 X/Y 0 1\r\na=rtpmap:96 opus/48000/2\r\na=rtcp-fb:* nack pli\r\na=fmtp:96 x=1;apt=2\r\na=msid:\r\na=ice-ufrag\r\n"]:
             out.append({"origin": "corpus", "text": t})
         return out
 
